@@ -4,10 +4,230 @@ import Parsley.Model.Obj
 namespace Driver.C16
 open Parsley Parsley.Prim Parsley.Obj Driver
 
-/-- cases:
+/-! cases:
     `nest <d> <hex> <k>`   a syntactically valid object of known nesting depth k (by construction)
     `cut  <d> <hex>`       a prefix / mutation of such an object (failure point inside a nested object)
-    `deep <d> <n> arr|dict` n unclosed openers (n up to 10^6): must be rejected, without a crash -/
+    `deep <d> <n> arr|dict` n unclosed openers (n up to 10^6): must be rejected, without a crash
+    `wide <d> <N> arr|dict <elem> <p> a|d|m -|deep`
+                           WIDTH profile: one container with N elements / entries (`/K0000000 <elem>` ...) of kind <elem>
+                           at one level, inside p wrappers (arrays, dictionary values, mixed with siblings); `deep`: one
+                           extra last element `[7]`, one level deeper than the others
+    `run  <d> <N> <kind> <p> a|d|m`
+                           LENGTH profile: one scalar / white-space / comment run of N units (see `runLeaf`) inside p wrappers
+    Output for `wide` / `run` (harness and model): `ok <start> <stop> <cursor> <depth delta> dg n=<nodes> k=<depth>
+    w=<largest number of children> h=<order-sensitive checksum>` or `err <kind> <delta>`: a digest instead of the value, to keep
+    the lines short.  The harness runs EVERY C16 case on a thread with a fixed 1 MiB stack. -/
+
+/-! ### digest of a value (definition shared by the harness, the model printer and the oracle) -/
+
+def dgM : Nat := 1000000007
+
+/-- polynomial hash of a byte string, seeded with its length -/
+def kh (bs : Bytes) : Nat := bs.foldl (fun h b => (h * 31 + b.toNat) % dgM) (bs.length % dgM)
+
+structure Dg where
+  nodes : Nat
+  depth : Nat
+  width : Nat
+  chk : Nat
+deriving Inhabited
+
+def Dg.show (g : Dg) : String := s!"dg n={g.nodes} k={g.depth} w={g.width} h={g.chk}"
+def Dg.scalar (c : Nat) : Dg := ⟨1, 1, 0, c % dgM⟩
+def Dg.null : Dg := .scalar 1
+def Dg.bool (b : Bool) : Dg := .scalar (if b then 3 else 2)
+def Dg.int (n : Int) : Dg := .scalar (5 + n.natAbs % dgM)
+def Dg.real (n : Int) (d : Nat) : Dg := .scalar (7 + n.natAbs % dgM + 3 * (d % dgM))
+def Dg.str (bs : Bytes) : Dg := .scalar (11 + kh bs)
+def Dg.name (bs : Bytes) : Dg := .scalar (13 + kh bs)
+def Dg.ref (n g : Nat) : Dg := .scalar (17 + n % dgM + 3 * (g % dgM))
+def Dg.comment (bs : Bytes) : Dg := .scalar (19 + kh bs)
+
+/-- an array from the digests of its elements, in order -/
+def Dg.arr (xs : List Dg) : Dg :=
+  let (n, k, w, h, c) := xs.foldl (fun (acc : Nat × Nat × Nat × Nat × Nat) x =>
+    let (n, k, w, h, c) := acc
+    (n + x.nodes, Nat.max k x.depth, Nat.max w x.width, (h * 31 + x.chk) % dgM, c + 1)) (0, 0, 0, 23, 0)
+  ⟨1 + n, 1 + k, Nat.max w c, h⟩
+
+/-- a dictionary from its entries in key order -/
+def Dg.dict (kvs : List (Bytes × Dg)) : Dg :=
+  let (n, k, w, h, c) := kvs.foldl (fun (acc : Nat × Nat × Nat × Nat × Nat) kv =>
+    let (n, k, w, h, c) := acc
+    (n + kv.2.nodes, Nat.max k kv.2.depth, Nat.max w kv.2.width, (((h * 31 + kh kv.1) % dgM) * 31 + kv.2.chk) % dgM, c + 1))
+    (0, 0, 0, 29, 0)
+  ⟨1 + n, 1 + k, Nat.max w c, h⟩
+
+mutual
+/-- digest of a value of the model -/
+def dgObj : Obj → Dg
+  | .null => .null
+  | .bool b => .bool b
+  | .int n => .int n
+  | .real n d => .real n d
+  | .str bs => .str bs
+  | .name bs => .name bs
+  | .ref n g => .ref n g
+  | .comment bs => .comment bs
+  | .arr xs => .arr (dgList xs)
+  | .dict kvs => .dict (dgKvs kvs)
+  | .stream _ _ => .scalar 31
+def dgList : List Obj → List Dg
+  | [] => []
+  | x :: t => dgObj x :: dgList t
+def dgKvs : List (Bytes × Obj) → List (Bytes × Dg)
+  | [] => []
+  | (k, v) :: t => (k, dgObj v) :: dgKvs t
+end
+
+/-! ### width and length profiles: text, and (spec side, from the description alone) the denoted value's digest -/
+
+/-- a leaf of a profile: its spelling (built on demand), length, leading white space, the digest of the value it denotes
+    (`none`: not an object, must be rejected), the nesting depth of the INPUT (a null-valued entry counts), and an estimate of
+    the list-based model's work on it (list cells walked) -/
+structure Leaf where
+  text : Unit → Bytes
+  len : Nat
+  lead : Nat
+  dg : Option Dg
+  depth : Nat
+  cost : Nat
+
+def rep (n : Nat) (u : Bytes) : Bytes := (List.replicate n u).flatten
+
+/-- element kinds of the width profiles: spelling, digest (`none` = null), depth -/
+def elemOf (e : String) : Option (Bytes × Option Dg × Nat) :=
+  match e with
+  | "int" => some (strBytes "7", some (.int 7), 1)
+  | "null" => some (strBytes "null", none, 1)
+  | "bool" => some (strBytes "true", some (.bool true), 1)
+  | "real" => some (strBytes "1.5", some (.real 15 10), 1)
+  | "name" => some (strBytes "/N", some (.name [78]), 1)
+  | "str" => some (strBytes "(a)", some (.str [97]), 1)
+  | "hex" => some (strBytes "<41>", some (.str [65]), 1)
+  | "ref" => some (strBytes "1 0 R", some (.ref 1 0), 1)
+  | "earr" => some (strBytes "[]", some (.arr []), 1)
+  | "edict" => some (strBytes "<<>>", some (.dict []), 1)
+  | "arr1" => some (strBytes "[7]", some (.arr [.int 7]), 2)
+  | "dict1" => some (strBytes "<</K 7>>", some (.dict [([75], .int 7)]), 2)
+  | _ => none
+
+/-- the j-th key: `K` and seven decimal digits (byte order = numeric order) -/
+def keyOf (j : Nat) : Bytes := 75 :: (List.range 7).map fun i => UInt8.ofNat (48 + (j / 10 ^ (6 - i)) % 10)
+
+def wideLeaf (n : Nat) (shape elem tail : String) : Option Leaf :=
+  match elemOf elem with
+  | none => none
+  | some (et, eg, ed) =>
+    let hasTail := tail == "deep"
+    let depth := 1 + Nat.max (if n > 0 then ed else 0) (if hasTail then 2 else 0)
+    let tailDg : Dg := .arr [.int 7]
+    if shape == "arr" then
+      let tailT : Bytes := if hasTail then strBytes "[7] " else []
+      let len := 2 + n * (et.length + 1) + tailT.length
+      some { text := fun _ => [91] ++ rep n (et ++ [32]) ++ tailT ++ [93]
+             len := len, lead := 0, depth := depth, cost := (n + 1) * len
+             dg := some (.arr (List.replicate n (eg.getD .null) ++ (if hasTail then [tailDg] else []))) }
+    else if shape == "dict" then
+      let tailT : Bytes := if hasTail then strBytes "/Z [7] " else []
+      let len := 4 + n * (10 + et.length + 1) + tailT.length
+      some { text := fun _ => [60, 60] ++ ((List.range n).flatMap fun j => [47] ++ keyOf j ++ [32] ++ et ++ [32]) ++ tailT ++ [62, 62]
+             len := len, lead := 0, depth := depth, cost := (n + 1) * len
+             dg := some (.dict ((match eg with
+                                 | none => []
+                                 | some g => (List.range n).map fun j => (keyOf j, g))
+                                ++ (if hasTail then [([90], tailDg)] else []))) }
+    else none
+
+/-- length profiles: n units of one scalar kind / of white space / of comments -/
+def runLeaf (n : Nat) (kind : String) : Option Leaf :=
+  let a : Bytes := List.replicate n 65
+  let mk (text : Unit → Bytes) (len lead : Nat) (dg : Option Dg) (depth : Nat) (quad : Bool) : Option Leaf :=
+    some { text, len, lead, dg, depth, cost := if quad then (n + 1) * len else 8 * len }
+  match kind with
+  -- literal strings: plain, balanced parentheses n deep, n escaped parentheses (the raw bytes are the value)
+  | "str" => mk (fun _ => [40] ++ a ++ [41]) (n + 2) 0 (some (.str a)) 1 false
+  | "strp" => mk (fun _ => [40] ++ List.replicate n 40 ++ List.replicate n 41 ++ [41]) (2 * n + 2) 0
+                (some (.str (List.replicate n 40 ++ List.replicate n 41))) 1 false
+  | "stre" => mk (fun _ => [40] ++ rep n [92, 41] ++ [41]) (2 * n + 2) 0 (some (.str (rep n [92, 41]))) 1 false
+  -- names: plain, n `#41` escapes
+  | "name" => mk (fun _ => [47] ++ a) (n + 1) 0 (some (.name a)) 1 false
+  | "namex" => mk (fun _ => [47] ++ rep n [35, 52, 49]) (3 * n + 1) 0 (some (.name a)) 1 false
+  -- hex strings: plain, with white space inside
+  | "hex" => mk (fun _ => [60] ++ rep n [52, 49] ++ [62]) (2 * n + 2) 0 (some (.str a)) 1 false
+  | "hexws" => mk (fun _ => [60] ++ rep n [52, 32, 49, 10] ++ [62]) (4 * n + 2) 0 (some (.str a)) 1 false
+  -- numbers: n leading zeros (value 7); n nines and n fraction digits (beyond i128 for n >= 40: not an object)
+  | "zeros" => mk (fun _ => List.replicate n 48 ++ [55]) (n + 1) 0 (some (.int 7)) 1 false
+  | "nines" => if n < 40 then none else mk (fun _ => List.replicate n 57) n 0 none 1 false
+  | "frac" => if n < 40 then none else mk (fun _ => [49, 46] ++ List.replicate n 48 ++ [53]) (n + 3) 0 none 1 false
+  -- white space and comments before a token
+  | "ws" => mk (fun _ => List.replicate n 32 ++ [55]) (n + 1) n (some (.int 7)) 1 false
+  | "crlf" => mk (fun _ => rep n [13, 10] ++ [55]) (2 * n + 1) (2 * n) (some (.int 7)) 1 false
+  | "cmt" => mk (fun _ => rep n [37, 99, 10] ++ [55]) (3 * n + 1) (3 * n) (some (.int 7)) 1 true
+  | "cmt1" => mk (fun _ => [37] ++ List.replicate n 99 ++ [10, 55]) (n + 3) (n + 2) (some (.int 7)) 1 false
+  -- white space and comments inside containers and references
+  | "arrws" => mk (fun _ => [91] ++ List.replicate n 32 ++ [93]) (n + 2) 0 (some (.arr [])) 1 false
+  | "arrcmt" => mk (fun _ => [91] ++ rep n [37, 10] ++ [93]) (2 * n + 2) 0 (some (.arr [])) 1 true
+  | "dictws" => mk (fun _ => [60, 60] ++ List.replicate n 10 ++ [62, 62]) (n + 4) 0 (some (.dict [])) 1 false
+  | "kvws" => if n == 0 then none else mk (fun _ => strBytes "<</K" ++ List.replicate n 32 ++ [55] ++ List.replicate n 32 ++ [62, 62]) (2 * n + 7) 0
+                (some (.dict [([75], .int 7)])) 2 false
+  | "refws" => if n == 0 then none else mk (fun _ => [49] ++ List.replicate n 32 ++ [48] ++ List.replicate n 10 ++ [82]) (2 * n + 3) 0 (some (.ref 1 0)) 1 false
+  | "bigkey" => mk (fun _ => [60, 60, 47] ++ a ++ [32, 55, 62, 62]) (n + 7) 0 (some (.dict [(a, .int 7)])) 2 false
+  | _ => none
+
+/-- wrappers: 0 = array, 1 = dictionary value, 2 = array with siblings (same as `render`, outermost first) -/
+def wrapProf (p : Nat) (wrap : String) : List Nat :=
+  (List.range p).map fun j => if wrap == "a" then 0 else if wrap == "d" then 1 else j % 3
+def opener (o : Nat) : Bytes := if o == 0 then [91] else if o == 1 then [60, 60, 47, 75, 32] else [91, 49, 32]
+def closer (o : Nat) : Bytes := if o == 0 then [93] else if o == 1 then [62, 62] else [32, 47, 78, 93]
+def wrapDg (prof : List Nat) (g : Dg) : Dg :=
+  prof.foldr (fun o inner =>
+    if o == 0 then Dg.arr [inner] else if o == 1 then Dg.dict [([75], inner)] else Dg.arr [.int 1, inner, .name [78]]) g
+
+/-- a `wide` / `run` case: bound, wrappers, leaf -/
+structure Big where
+  d : Nat
+  prof : List Nat
+  leaf : Leaf
+
+def bigOf (w : List String) : Option Big :=
+  match w with
+  | ["wide", d, n, shape, elem, p, wrap, tail] =>
+    match d.toNat?, n.toNat?, p.toNat? with
+    | some d, some n, some p => (wideLeaf n shape elem tail).map fun l => ⟨d, wrapProf p wrap, l⟩
+    | _, _, _ => none
+  | ["run", d, n, kind, p, wrap] =>
+    match d.toNat?, n.toNat?, p.toNat? with
+    | some d, some n, some p => (runLeaf n kind).map fun l => ⟨d, wrapProf p wrap, l⟩
+    | _, _, _ => none
+  | _ => none
+
+def Big.bytes (b : Big) : Bytes :=
+  b.prof.flatMap opener ++ b.leaf.text () ++ b.prof.reverse.flatMap closer
+
+/-- nesting depth of the input -/
+def Big.depth (b : Big) : Nat := b.prof.length + b.leaf.depth
+
+/-- what the description denotes (spec side; the parser model is not consulted): the output line of an accepted case,
+    `none` when the input is not an object or nests deeper than the bound -/
+def Big.expected (b : Big) : Option String :=
+  match b.leaf.dg with
+  | none => none
+  | some g =>
+    if b.depth > b.d then none
+    else
+      let pre := (b.prof.flatMap opener).length
+      let stop := pre + b.leaf.len + (b.prof.flatMap closer).length
+      let start := if b.prof.isEmpty then b.leaf.lead else 0
+      some s!"ok {start} {stop} {stop} 0 {(wrapDg b.prof g).show}"
+
+/-- the list-based model walks the input from its head at every primitive call: it runs the profiles whose estimated work
+    is below this many list cells (about a second); on the larger ones of the same families the model's line is the closed
+    form `Big.expected` / `err guard 0`, which the smaller ones confirm (stated in the rule text) -/
+def modelBudget : Nat := 600000000
+def Big.modelRuns (b : Big) : Bool := 24 * b.leaf.cost ≤ modelBudget
+
+/-- the input of a `nest` / `cut` / `deep` case -/
 def inputOf (w : List String) : Option (Nat × Bytes) :=
   match w with
   | "deep" :: d :: n :: kind :: _ =>
@@ -23,6 +243,17 @@ def inputOf (w : List String) : Option (Nat × Bytes) :=
   | _ => none
 
 def model (line : String) : String :=
+  match bigOf (words line) with
+  | some b =>
+    if b.modelRuns then
+      let (r, c) := parseObj ⟨0, b.d⟩ b.bytes 0
+      let delta : Int := (c.cur : Int) - 0
+      match r with
+      | (.ok v, k) => s!"ok {v.start} {v.stop} {k} {delta} {(dgObj v.val).show}"
+      | (.err e, _) => s!"err {e} {delta}"
+      | (.panic p, _) => s!"panic {p}"
+    else (b.expected).getD "err guard 0"
+  | none =>
   match inputOf (words line) with
   | some (d, s) =>
     let (r, c) := parseObj ⟨0, d⟩ s 0
@@ -33,9 +264,32 @@ def model (line : String) : String :=
     | (.panic p, _) => s!"panic {p}"
   | none => "bad-case"
 
+/-- oracle for the width / length profiles, from the description alone -/
+def judgeBig (b : Big) (impl : String) : String :=
+  let iw := words impl
+  let v := iw.headD "?"
+  if v.startsWith "crash" || v == "hang" || v == "panic" then
+    s!"bad crash-on-wide-input impl={v} leaf-bytes={b.leaf.len} nesting={b.depth} d={b.d}"
+  else
+    match b.expected, iw with
+    | some want, "ok" :: _ :: _ :: _ :: delta :: _ =>
+      if delta != "0" then "bad depth-not-restored"
+      else if impl.trimAscii.toString == want then "ok"
+      else s!"bad wide-wrong-value want={want}"
+    | some _, ["err", _, delta] =>
+      if delta != "0" then "bad depth-not-restored"
+      else s!"bad valid-within-bound-rejected k={b.depth} d={b.d}"
+    | none, ["err", _, delta] => if delta != "0" then "bad depth-not-restored" else "ok"
+    | none, "ok" :: _ =>
+      if b.leaf.dg.isSome then s!"bad deeper-than-bound-accepted k={b.depth} d={b.d}" else "bad non-object-accepted"
+    | _, _ => "bad panic-or-crash"
+
 def judge (case impl : String) : String :=
   let w := words case
   let iw := words impl
+  match bigOf w with
+  | some b => judgeBig b impl
+  | none =>
   match w, iw with
   | "nest" :: d :: _ :: k :: _, "ok" :: _ :: _ :: _ :: delta :: sexp =>
     if delta != "0" then "bad depth-not-restored"
@@ -63,6 +317,10 @@ def render (profile : List Nat) (leaf : Bytes) : Bytes :=
     | _ => [91, 49, 32] ++ inner ++ [32, 47, 78, 93]) leaf
 
 def leaves : List Bytes := [[55], [110, 117, 108, 108], [40, 97, 41], [47, 78], [91, 93], [60, 60, 62, 62], [49, 32, 48, 32, 82]]
+
+def elemKinds : List String := ["int", "name", "str", "earr", "arr1", "null", "ref", "dict1", "hex", "real", "bool", "edict"]
+def runKinds : List String := ["str", "strp", "stre", "name", "namex", "hex", "hexws", "zeros", "nines", "frac", "ws", "crlf", "cmt", "cmt1",
+  "arrws", "arrcmt", "dictws", "kvws", "refws", "bigkey"]
 
 def gen (seed n : Nat) (tier : String) (emit : String → IO Unit) : IO Unit := do
   let mut r := Rng.mk' seed
@@ -96,12 +354,63 @@ def gen (seed n : Nat) (tier : String) (emit : String → IO Unit) : IO Unit := 
       emit s!"deep {d} {nn} arr"
       emit s!"deep {d} {nn} dict"
 
-/-- non-trivial: at least two levels of nesting in the input -/
+  -- WIDTH profiles: one level with n elements / entries, at nesting positions 1, d/2, d-1 (elements exactly at the bound)
+  -- and d (elements one beyond the bound: rejected), inside arrays / dictionaries / mixed wrappers, every element kind
+  let thorough := tier == "thorough"
+  let mut i := 0
+  for d in [2, 3, 50, 64] do
+    for shape in ["arr", "dict"] do
+      for q in [1, d / 2, d - 1, d].eraseDups do
+        -- (width, number of element kinds): the list model runs the widths 300 / 1000 (arrays: 3000), the wider ones are judged
+        -- by the oracle alone
+        let sizes : List (Nat × Nat) :=
+          if thorough then [(300, 12), (1000, 12), (3000, 4), (10000, 12), (100000, 2)]
+          else [(300, 4), (1000, if shape == "arr" then 2 else if i % 20 == 0 then 1 else 0), (10000, 2)]
+        for (nn, cnt) in sizes do
+          for j in List.range cnt do
+            let e := elemKinds[(i + j) % elemKinds.length]?.getD "int"
+            let wrap := ["a", "d", "m"][(i + j) % 3]?.getD "a"
+            emit s!"wide {d} {nn} {shape} {e} {q - 1} {wrap} -"
+          i := i + 5
+        -- a last element one level deeper than its siblings (at q = d-1: rejected after the whole width is parsed)
+        emit s!"wide {d} 300 {shape} {elemKinds[i % 10]?.getD "int"} {q - 1} m deep"
+        emit s!"wide {d} 10000 {shape} {elemKinds[(i + 3) % 10]?.getD "int"} {q - 1} a deep"
+  -- every element kind once more at 10^4, a handful at 10^5 (thorough: 10^6)
+  for e in elemKinds do
+    emit s!"wide 3 10000 arr {e} 0 a -"
+    emit s!"wide 50 10000 dict {e} 24 m -"
+  for nn in (if thorough then [100000, 1000000] else [100000]) do
+    emit s!"wide 2 {nn} arr int 0 a -"
+    emit s!"wide 2 {nn} dict name 0 a -"
+    emit s!"wide 3 {nn} arr earr 1 d -"
+    emit s!"wide 64 {nn} arr str 62 m -"
+    emit s!"wide 64 {nn} dict dict1 31 a -"
+    emit s!"wide 50 {nn} arr arr1 24 d -"
+    emit s!"wide 50 {nn} dict null 48 m -"
+    emit s!"wide 50 {nn} arr ref 48 a deep"
+    emit s!"wide 64 {nn} dict real 0 a deep"
+  -- LENGTH profiles: long runs of every scalar kind, of white space and of comments; top level, at the bound inside mixed
+  -- wrappers, half way inside dictionaries (quick: the 10^5 runs at one of the three places each)
+  let mut jj := 0
+  for kind in runKinds do
+    let scalar := !(kind == "kvws" || kind == "bigkey")
+    for nn in (if thorough then [1000, 10000, 100000, 1000000] else [1000, 10000, 100000]) do
+      let places := [s!"run {if scalar then 1 else 2} {nn} {kind} 0 a", s!"run 64 {nn} {kind} {if scalar then 63 else 62} m",
+                     s!"run 50 {nn} {kind} 24 d"]
+      if thorough || nn < 100000 then
+        for c in places do emit c
+      else emit (places[jj % 3]?.getD "")
+      if nn == 1000 then emit s!"run 3 {nn} {kind} 2 a"        -- one beyond the bound (kvws / bigkey: two)
+    jj := jj + 1
+
+/-- non-trivial: at least two levels of nesting in the input; width / length profiles: at least 1000 units -/
 def nontrivial (line : String) : Bool :=
   match words line with
   | "nest" :: _ :: _ :: k :: _ => k.toNat! ≥ 2
   | "cut" :: _ :: hex :: _ => hex.length ≥ 6
   | "deep" :: _ => true
+  | "wide" :: _ :: n :: _ => n.toNat! ≥ 1000
+  | "run" :: _ :: n :: _ => n.toNat! ≥ 1000
   | _ => false
 
 def driver : PropDriver := { gen, model, judge, nontrivial }
